@@ -37,7 +37,7 @@ let opcode_of = function
   | "lt" -> OLt | "le" -> OLe | "eq" -> OEq | "gt" -> OGt | "ge" -> OGe | "ne" -> ONe
   | "band" -> OBand | "bor" -> OBor | "bxor" -> OBxor | "shl" -> OShl | "shr" -> OShr | "bnot" -> OBnot
   | "abs" -> OAbs | "floor" -> OFloor | "ceil" -> OCeil | "fmod" -> OFmod | "tointeger" -> OToInteger
-  | "ult" -> OUlt | "max" -> OMax | "min" -> OMin | "modf" -> OModf | "mtype" -> OMType | "keytype" -> OKeyType
+  | "ult" -> OUlt | "max" -> OMax | "min" -> OMin | "modf" -> OModf | "mtype" -> OMType | "keytype" -> OKeyType | "randok" -> ORandOk
   | s -> failwith ("bad op " ^ s)
 
 let ops () =
@@ -86,7 +86,10 @@ let strmode () =
       let l = List.map z_of_int (bytes_of_hex h) in
       let r = s_str2number l in
       print_endline (id ^ " S:" ^ (match r with Some x -> show_num x | None -> "N")
-                        ^ " I:" ^ (match r with Some x -> (match s_to_int x with Some z -> "I" ^ hex_of_z z | None -> "N") | None -> "N"))
+                        ^ " I:" ^ (match r with Some x -> (match s_to_int x with Some z -> "I" ^ hex_of_z z | None -> "N") | None -> "N")
+                        ^ " MF:" ^ (match r with Some x -> show_rval (eval_s OModf x x) | None -> "E")
+                        ^ " FL:" ^ (match r with Some x -> show_rval (eval_s OFloor x x) | None -> "E")
+                        ^ " AB:" ^ (match r with Some x -> show_rval (eval_s OAbs x x) | None -> "E"))
     | [id; h; base] ->
       let l = List.map z_of_int (bytes_of_hex h) in
       print_endline (id ^ " S:" ^ (match s_tonumber_base l (z_of_int (int_of_string base)) with Some z -> "I" ^ hex_of_z z | None -> "N"))
